@@ -176,6 +176,7 @@ type deferred struct {
 
 type loopCut struct {
 	entryPC int
+	recBase int // number of recorded calls when the loop was entered (after havoc)
 }
 
 func (s *State) clone() *State {
@@ -526,7 +527,9 @@ func (x *Exec) symbolic(st *State, t types.Type, name string) Value {
 	case *types.Chan:
 		// an input channel: possibly nil, possibly closed, identity symbolic (it may be the same channel as another input)
 		nilT := x.sym.Named(name+".isnil", SBool)
-		obj := x.alloc(st, &ChanObj{Typ: t, Cap: x.sym.Named(name+".cap", SInt), Closed: x.sym.Named(name+".closed", SBool), Name: name})
+		ln := x.sym.Named(name+".len", SInt)
+		st.assume(Ge(ln, IntLit(0)))
+		obj := x.alloc(st, &ChanObj{Typ: t, Cap: x.sym.Named(name+".cap", SInt), Closed: x.sym.Named(name+".closed", SBool), Name: name, Len: ln})
 		return VChan{Nil: nilT, Obj: obj, Typ: t, Id: x.sym.Named(name+".id", SErr)}
 	}
 	return VOpaque{Typ: t, Name: name}
